@@ -159,11 +159,15 @@ variable {σ ε ρ : Type}
 theorem parkT_errFwd (t : Trans σ ε ρ) (hf : ErrFwd t) (parks : σ → Except ε ρ → Option ε)
     (fp : σ → Option ε) (drop : Bool) : ErrFwd (parkT t parks fp drop) := by
   intro st e hd
-  obtain ⟨e', rest, he⟩ := hf st.1 e hd
   simp only [parkT]
-  cases firstSome st.2 (parks st.1 (.error e)) with
-  | none => exact ⟨e', rest, he⟩
-  | some e2 => rw [he]; exact ⟨e2, rest, rfl⟩
+  cases st.2 with
+  | some e2 => exact hf st.1 e2 hd
+  | none =>
+    obtain ⟨e', rest, he⟩ := hf st.1 e hd
+    simp only
+    cases parks st.1 (.error e) with
+    | none => exact ⟨e', rest, he⟩
+    | some e2 => rw [he]; exact ⟨e2, rest, rfl⟩
 
 theorem parkT_run_cons (t : Trans σ ε ρ) (parks : σ → Except ε ρ → Option ε) (fp : σ → Option ε) (drop : Bool)
     (st : σ) (pend : Option ε) (x : Except ε ρ) (xs : Stream ε ρ) (hd : t.done st = false) :
@@ -174,9 +178,29 @@ theorem parkT_run_cons (t : Trans σ ε ρ) (parks : σ → Except ε ρ → Opt
   have : (parkT t parks fp drop).done (st, pend) = false := hd
   rw [this]; simp
 
-/-- operators that never say `done` (Project, Unwind): if the `d` items handed out are all `Ok`,
-    nothing was pending and no pulled row parked a failure — wherever the stream ends -/
-theorem park_ok_of_never_done (t : Trans σ ε ρ) (hnd : ∀ st, t.done st = false)
+theorem parkT_step_pending (t : Trans σ ε ρ) (parks : σ → Except ε ρ → Option ε) (fp : σ → Option ε) (drop : Bool)
+    (a : σ) (e : ε) (x : Except ε ρ) :
+    (parkT t parks fp drop).step (a, some e) x = (((t.step a (.error e)).1, none), (t.step a (.error e)).2) := rfl
+
+theorem parkT_step_none (t : Trans σ ε ρ) (parks : σ → Except ε ρ → Option ε) (fp : σ → Option ε) (drop : Bool)
+    (a : σ) (x : Except ε ρ) (h : parks a x = none) :
+    (parkT t parks fp drop).step (a, none) x = (((t.step a x).1, none), (t.step a x).2) := by
+  simp only [parkT, h]
+
+theorem parkT_step_some_nil (t : Trans σ ε ρ) (parks : σ → Except ε ρ → Option ε) (fp : σ → Option ε) (drop : Bool)
+    (a : σ) (x : Except ε ρ) (e : ε) (h : parks a x = some e) (ho : (t.step a x).2 = []) :
+    (parkT t parks fp drop).step (a, none) x = (((t.step a x).1, some e), []) := by
+  simp only [parkT, h, ho]
+
+theorem parkT_step_some_cons (t : Trans σ ε ρ) (parks : σ → Except ε ρ → Option ε) (fp : σ → Option ε) (drop : Bool)
+    (a : σ) (x : Except ε ρ) (e : ε) (y : Except ε ρ) (ys : Stream ε ρ)
+    (h : parks a x = some e) (ho : (t.step a x).2 = y :: ys) :
+    (parkT t parks fp drop).step (a, none) x = (((t.step a x).1, none), .error e :: ys) := by
+  simp only [parkT, h, ho]
+
+/-- operators that never say `done` (Project, Unwind, ProcedureCall): if the `d` items handed out are
+    all `Ok`, nothing was pending and no pulled row parked a failure — wherever the stream ends -/
+theorem park_ok_of_never_done (t : Trans σ ε ρ) (hf : ErrFwd t) (hnd : ∀ st, t.done st = false)
     (parks : σ → Except ε ρ → Option ε) (fp : σ → Option ε) :
     ∀ (s : Stream ε ρ) (st : σ) (pend : Option ε) (d : Nat), d ≠ 0 →
       allOk (((parkT t parks fp false).run (st, pend) s).take d) = true →
@@ -186,48 +210,47 @@ theorem park_ok_of_never_done (t : Trans σ ε ρ) (hnd : ∀ st, t.done st = fa
   | nil =>
     intro st pend d hd h
     rw [Trans.run_nil] at h
-    simp only [parkT, hnd st, Bool.false_eq_true, if_false] at h
-    simp only [parkEvents, hnd st, hd, Bool.false_eq_true, or_self, if_false]
     obtain ⟨d', rfl⟩ := Nat.exists_eq_succ_of_ne_zero hd
+    simp only [parkEvents, hnd st, Bool.false_eq_true, or_false, Nat.succ_ne_zero, if_false]
     cases pend with
-    | some e => cases hfl : t.flush st <;> simp [firstSome, hfl, List.take_succ_cons] at h
+    | some e =>
+      obtain ⟨e', rest, he⟩ := hf st e (hnd st)
+      simp [parkT, hnd st, he, List.take_succ_cons] at h
     | none =>
       cases hfp : fp st with
       | none => exact ⟨rfl, rfl⟩
-      | some e => cases hfl : t.flush st <;> simp [firstSome, hfp, hfl, List.take_succ_cons] at h
+      | some e => cases hfl : t.flush st <;> simp [parkT, hnd st, hfp, hfl, List.take_succ_cons] at h
   | cons x xs ih =>
     intro st pend d hd h
     rw [parkT_run_cons _ _ _ _ _ _ _ _ (hnd st)] at h
-    simp only [parkEvents, hnd st, hd, Bool.false_eq_true, or_self, if_false]
     obtain ⟨d', rfl⟩ := Nat.exists_eq_succ_of_ne_zero hd
-    simp only [parkT] at h
-    cases hfs : firstSome pend (parks st x) with
+    simp only [parkEvents, hnd st, Bool.false_eq_true, or_false, Nat.succ_ne_zero, if_false]
+    cases pend with
     | some e =>
-      rw [hfs] at h
-      cases hout : (t.step st x).2 with
-      | nil =>
-        rw [hout] at h
-        simp only [List.nil_append] at h
-        exact absurd (ih _ (some e) (d' + 1) (by omega) h).1 (by simp)
-      | cons y ys =>
-        rw [hout] at h
-        simp [List.take_succ_cons] at h
+      obtain ⟨e', rest, he⟩ := hf st e (hnd st)
+      rw [parkT_step_pending] at h
+      simp [he, List.take_succ_cons] at h
     | none =>
-      rw [hfs] at h
-      simp only at h
-      have hp : pend = none ∧ parks st x = none := by
-        cases pend with
-        | some e => simp [firstSome] at hfs
-        | none => exact ⟨rfl, by simpa [firstSome] using hfs⟩
-      refine ⟨hp.1, ?_⟩
-      rw [hp.2]
-      simp only [Option.toList, List.nil_append]
-      split
-      · rfl
-      · rename_i hlen
-        rw [List.take_append] at h
-        simp only [allOk_append, Bool.and_eq_true] at h
-        exact (ih _ none _ (by omega) h.2).2
+      refine ⟨rfl, ?_⟩
+      cases hp : parks st x with
+      | some e =>
+        cases hout : (t.step st x).2 with
+        | nil =>
+          rw [parkT_step_some_nil _ _ _ _ _ _ e hp hout] at h
+          simp only [List.nil_append] at h
+          exact absurd (ih _ (some e) (d' + 1) (by omega) h).1 (by simp)
+        | cons y ys =>
+          rw [parkT_step_some_cons _ _ _ _ _ _ e y ys hp hout] at h
+          simp [List.take_succ_cons] at h
+      | none =>
+        rw [parkT_step_none _ _ _ _ _ _ hp] at h
+        simp only at h ⊢
+        split
+        · rfl
+        · rename_i hlen
+          rw [List.take_append] at h
+          simp only [allOk_append, Bool.and_eq_true] at h
+          exact (ih _ none _ (by omega) h.2).2
 
 /-- blocking operators (OrderBy, Aggregate: failures are parked only by the work done once the
     input is exhausted): the same -/
@@ -249,11 +272,10 @@ theorem park_ok_of_flush_only (t : Trans σ ε ρ) (fp : σ → Option ε) :
         | false => rfl
         | true => exact absurd (Or.inr hdn) hnd
       rw [Trans.run_nil] at h
-      simp only [parkT, hdone, Bool.false_eq_true, if_false, firstSome] at h
       obtain ⟨d', rfl⟩ := Nat.exists_eq_succ_of_ne_zero hd0
       cases hfp : fp st with
       | none => rfl
-      | some e => cases hfl : t.flush st <;> simp [hfp, hfl, List.take_succ_cons] at h
+      | some e => cases hfl : t.flush st <;> simp [parkT, hdone, hfp, hfl, List.take_succ_cons] at h
   | cons x xs ih =>
     intro st d h
     simp only [parkEvents]
@@ -264,9 +286,7 @@ theorem park_ok_of_flush_only (t : Trans σ ε ρ) (fp : σ → Option ε) :
         cases hdn : t.done st with
         | false => rfl
         | true => exact absurd (Or.inr hdn) hnd
-      rw [parkT_run_cons _ _ _ _ _ _ _ _ hdone] at h
-      simp only [parkT, firstSome] at h
-      simp only [Option.toList, List.nil_append]
+      rw [parkT_run_cons _ _ _ _ _ _ _ _ hdone, parkT_step_none _ _ _ _ _ _ rfl] at h
       split
       · rfl
       · rw [List.take_append] at h
@@ -349,7 +369,7 @@ theorem trace_ok (S : Sem χ ρ ν ε κ α) (Q : Quirks) (hq : Q.forwardsErr) (
     intro site env d h
     simp only [runL, trace, hq6] at h ⊢
     exact parkTrace_ok L site _ (mapT_errFwd _) _ _
-      (fun s st d' hd' h' => (park_ok_of_never_done _ (fun _ => rfl) _ _ s st none d' hd' h').2) _ _ _ d (ih _ _) h
+      (fun s st d' hd' h' => (park_ok_of_never_done _ (mapT_errFwd _) (fun _ => rfl) _ _ s st none d' hd' h').2) _ _ _ d (ih _ _) h
   | distinct inp ih =>
     intro site env d h
     simp only [runL, trace, hq1] at h ⊢
@@ -358,7 +378,7 @@ theorem trace_ok (S : Sem χ ρ ν ε κ α) (Q : Quirks) (hq : Q.forwardsErr) (
     intro site env d h
     simp only [runL, trace, hq6] at h ⊢
     exact parkTrace_ok L site _ (flatMapT_errFwd _) _ _
-      (fun s st d' hd' h' => (park_ok_of_never_done _ (fun _ => rfl) _ _ s st none d' hd' h').2) _ _ _ d (ih _ _) h
+      (fun s st d' hd' h' => (park_ok_of_never_done _ (flatMapT_errFwd _) (fun _ => rfl) _ _ s st none d' hd' h').2) _ _ _ d (ih _ _) h
   | expand f inp ih =>
     intro site env d h
     exact unaryTrace_ok L site _ (flatMapT_errFwd _) _ _ _ d (ih _ _) h
